@@ -42,6 +42,18 @@ def all_units():
     return out
 
 
+HEAVY = ("cancel", "_trigger_reserve", "move_to_ready_items", "fleet_activation_process", "reserve_get", "reserve_put",
+         "behaviour", "worker")
+
+
+def shards_for(unit):
+    lib = get_lib(unit[0])
+    n = getattr(lib, "shards", lambda cls, fn: None)(unit[1], unit[2])
+    if n:
+        return n
+    return 4 if any(h in unit[2] for h in HEAVY) else 1
+
+
 def unit_props(unit):
     lib = get_lib(unit[0])
     return lib.unit_props(unit[1], unit[2])
@@ -49,7 +61,9 @@ def unit_props(unit):
 
 def run_unit(arg):
     """worker: verify one unit.  arg = (libname, cls, fname, timeout_ms, want_models)"""
-    libname, cls, fname, timeout_ms, want_models = arg
+    libname, cls, fname, timeout_ms, want_models = arg[:5]
+    shard = arg[5] if len(arg) > 5 else None
+    carve = arg[6] if len(arg) > 6 else None
     t0 = time.time()
     from pyvc import extract
     from pyvc.contract import verify_function
@@ -69,7 +83,9 @@ def run_unit(arg):
             return out
         node = exf.function(prof["cls"], fname)
         con = lib.contracts[cls][fname]
-        r = verify_function(lib, cls, fname, node, con, timeout_ms=timeout_ms, want_models=want_models)
+        r = verify_function(lib, cls, fname, node, con, timeout_ms=timeout_ms, want_models=want_models, shard=shard,
+                            carve=carve)
+        out["shard"] = list(shard) if shard else None
         out["unsupported"] = r.unsupported
         out["obligations"] = r.obligations
         out["paths"] = r.paths
